@@ -631,6 +631,430 @@ theorem host_after_rename (gs : Layer) (hn : (AL.keys gs).Nodup) (old new : Stri
     rw [hnone, hf]
     simp [hp, h4, hpo]
 
+theorem get?_renamed (gs : Layer) (old new : String) (g1 : GlyphS) (x : String) (h1 : old ≠ x) (h2 : new ≠ x) :
+    AL.get? (AL.set (eraseAll gs old) new g1) x = AL.get? gs x := by
+  rw [AL.get?_set_ne _ _ _ _ h2, get?_eraseAll]; simp [h1]
+
+/-- `glyph.name = new`, stated on explicit intermediate worlds -/
+theorem inv_rename_core (P : Params V) (T : Tables) (hcov : Coverage T = true) (w wA wB wS : World V)
+    (old new : String) (g : GlyphS) (attr : Nat) (hinv : Inv P T w) (hdom : Dom w)
+    (hg : AL.get? w.glyphs old = some g) (habs : AL.get? w.glyphs new = none) (hne : old ≠ new)
+    (hgA : wA.glyphs = AL.set (eraseAll w.glyphs old) new { g with attr := attr }) (hfA : wA.fuel = w.fuel)
+    (hgB : wB.glyphs = mapAllComps wA.glyphs (setWatch (waitsFor new) Watch.base)) (hfB : wB.fuel = w.fuel)
+    (hgS : wS.glyphs = mapAllComps wB.glyphs (setWatch (watchesBase old) Watch.layer))
+    (hlc : wS.looseC = w.looseC) (hlk : wS.looseK = w.looseK) (hfS : wS.fuel = w.fuel)
+    (hgv : wS.groupsVer = w.groupsVer) (hrg : wS.regs = w.regs)
+    (hca : wS.caches = AL.set (eraseAll w.caches (.glyph old)) (.glyph new) (cacheOf w (.glyph old)))
+    (hdomS : Dom wS) :
+    Inv P T (applyDeliv T wS
+      (switchDs T wA (waitsFor new) Watch.base "layerGlyphNameChangedNotificationCallback" ++
+       switchDs T wB (watchesBase old) Watch.layer "baseGlyphNameChangedNotificationCallback" ++
+       glyphDeliv wS.fuel T wS.glyphs new (T.postsOf "Glyph" "_set_name"))) := by
+  have hk1 := keepsData_setWatch (waitsFor new) Watch.base
+  have hk2 := keepsData_setWatch (watchesBase old) Watch.layer
+  -- worlds with the fields of `w` and the intermediate layers, for the view transfer
+  have hv2 := fun o nm => view_mapAll hk2 T ({ w with glyphs := wB.glyphs } : World V) wS hgS hlc hlk hfS hgv o nm
+  have hv1 := fun o nm => view_mapAll hk1 T ({ w with glyphs := wA.glyphs } : World V)
+    ({ w with glyphs := wB.glyphs } : World V) hgB rfl rfl rfl rfl o nm
+  have hview0 : ∀ o nm, viewOf T wS o nm = viewOf T ({ w with glyphs := wA.glyphs } : World V) o nm ∧
+      attached wS o = attached ({ w with glyphs := wA.glyphs } : World V) o :=
+    fun o nm => ⟨(hv2 o nm).1.trans (hv1 o nm).1, (hv2 o nm).2.trans (hv1 o nm).2⟩
+  -- caches
+  have hcS : ∀ o, cacheOf wS o = if Obj.glyph new = o then cacheOf w (.glyph old)
+      else if Obj.glyph old = o then [] else cacheOf w o := by
+    intro o
+    unfold cacheOf
+    rw [hca, AL.get?_set]
+    by_cases e1 : Obj.glyph new = o
+    · simp [e1, cacheOf]
+    · simp only [e1, if_false]
+      rw [get?_eraseAll]
+      by_cases e2 : Obj.glyph old = o
+      · simp [e2]
+      · simp [e2]
+  have hglyphNew : attached w (.glyph new) = false := by
+    simp only [attached]; exact (AL.contains_false_iff _ _).mpr habs
+  -- ReadsN transfers between the three layers
+  have hrB : ∀ {m x a}, ReadsN wB.glyphs m x a ↔ ReadsN wA.glyphs m x a := by
+    intro m x a; rw [hgB]; exact readsN_mapAllComps hk1 _
+  have hrS : ∀ {m x a}, ReadsN wS.glyphs m x a ↔ ReadsN wB.glyphs m x a := by
+    intro m x a; rw [hgS]; exact readsN_mapAllComps hk2 _
+  have hbB : Bounded wB.glyphs w.fuel := by
+    have := hdomS.bounded; rw [hgS, hfS] at this; exact (bounded_mapAllComps hk2 _ _).mp this
+  -- records of the intermediate layers
+  have hmapB : ∀ x gx, AL.get? wA.glyphs x = some gx →
+      AL.get? wB.glyphs x = some { gx with comps := gx.comps.map (setWatch (waitsFor new) Watch.base) } := by
+    intro x gx h; rw [hgB, get?_mapAllComps, h]; rfl
+  have hmapS : ∀ x gx, AL.get? wB.glyphs x = some gx →
+      AL.get? wS.glyphs x = some { gx with comps := gx.comps.map (setWatch (watchesBase old) Watch.layer) } := by
+    intro x gx h; rw [hgS, get?_mapAllComps, h]; rfl
+  -- a component record of layer A comes from the original layer
+  have horig : ∀ z gz kz, AL.get? wA.glyphs z = some gz → kz ∈ gz.comps →
+      ∃ z0 g0, AL.get? w.glyphs z0 = some g0 ∧ kz ∈ g0.comps := by
+    intro z gz kz hgz hkz
+    rw [hgA] at hgz
+    by_cases e : new = z
+    · subst e
+      rw [AL.get?_set_self] at hgz
+      cases hgz
+      exact ⟨old, g, hg, hkz⟩
+    · rw [AL.get?_set_ne _ _ _ _ e, get?_eraseAll] at hgz
+      by_cases e2 : old = z
+      · simp [e2] at hgz
+      · simp only [e2, if_false] at hgz
+        exact ⟨z, gz, hgz, hkz⟩
+  -- S1: components whose base is `new` were waiting on the layer; their callback runs on layer B
+  have hsel1 : ∀ z gz kz, AL.get? wB.glyphs z = some gz → kz ∈ gz.comps → kz.base = some new →
+      ∀ y, y ∈ compDeliv w.fuel T wB.glyphs z kz.id (T.postsOf "Component" "layerGlyphNameChangedNotificationCallback") →
+        y ∈ switchDs T wA (waitsFor new) Watch.base "layerGlyphNameChangedNotificationCallback" := by
+    intro z gz kz hgz hkz hbz y hy
+    rw [hgB, get?_mapAllComps] at hgz
+    cases hg0 : AL.get? wA.glyphs z with
+    | none => rw [hg0] at hgz; cases hgz
+    | some g0 =>
+      rw [hg0] at hgz
+      simp only [Option.map_some, Option.some.injEq] at hgz
+      subst hgz
+      simp only [List.mem_map] at hkz
+      obtain ⟨k0, hk0, e⟩ := hkz
+      subst e
+      rw [hk1.base] at hbz
+      rw [hk1.id] at hy
+      obtain ⟨z0, gz0, hgz0, hkz0⟩ := horig z g0 k0 hg0 hk0
+      have hwait := hdom.wait z0 gz0 k0 new hgz0 hkz0 hbz ((AL.contains_false_iff _ _).mpr habs)
+      refine mem_switchDs hg0 hk0 (by simp [waitsFor, hwait, hbz]) ?_
+      rw [hfA, ← hgB]; exact hy
+  have hWx1 : ∀ x' g' k x, AL.get? wB.glyphs x' = some g' → k ∈ g'.comps → k.base = some x → x ≠ new →
+      AL.contains wB.glyphs x = true → k.watch = Watch.base := by
+    intro x' g' k x hg' hk hbx _ hcx
+    have h3 := hdomS.watch x' _ (setWatch (watchesBase old) Watch.layer k) x (hmapS x' g' hg')
+      (List.mem_map_of_mem hk) (by rw [hk2.base]; exact hbx) (by rw [hgS, contains_mapAllComps]; exact hcx)
+    unfold setWatch at h3
+    by_cases hs : watchesBase old k = true
+    · simp [hs] at h3
+    · simpa [hs] using h3
+  have hS1 := fun {x' gx k c m} => switch_hits T hcov wB.glyphs w.fuel new "layerGlyphNameChangedNotificationCallback" _
+    (by simp [compCallbacks]) hbB hWx1 hsel1 (x' := x') (gx := gx) (k := k) (c := c) (m := m)
+  -- S2: components whose base is `old` were registered on the glyph; their callback runs on layer S
+  have hsel2 : ∀ z gz kz, AL.get? wS.glyphs z = some gz → kz ∈ gz.comps → kz.base = some old →
+      ∀ y, y ∈ compDeliv wS.fuel T wS.glyphs z kz.id (T.postsOf "Component" "baseGlyphNameChangedNotificationCallback") →
+        y ∈ switchDs T wB (watchesBase old) Watch.layer "baseGlyphNameChangedNotificationCallback" := by
+    intro z gz kz hgz hkz hbz y hy
+    rw [hgS, get?_mapAllComps] at hgz
+    cases hgb : AL.get? wB.glyphs z with
+    | none => rw [hgb] at hgz; cases hgz
+    | some gb =>
+      rw [hgb] at hgz
+      simp only [Option.map_some, Option.some.injEq] at hgz
+      subst hgz
+      simp only [List.mem_map] at hkz
+      obtain ⟨kb, hkb, e⟩ := hkz
+      subst e
+      rw [hk2.base] at hbz
+      rw [hk2.id] at hy
+      -- kb comes from layer A through f1, which leaves it alone (its base is not `new`)
+      have hgb' := hgb
+      rw [hgB, get?_mapAllComps] at hgb'
+      cases hga : AL.get? wA.glyphs z with
+      | none => rw [hga] at hgb'; cases hgb'
+      | some ga =>
+        rw [hga] at hgb'
+        simp only [Option.map_some, Option.some.injEq] at hgb'
+        subst hgb'
+        simp only [List.mem_map] at hkb
+        obtain ⟨ka, hka, e⟩ := hkb
+        subst e
+        rw [hk1.base] at hbz
+        obtain ⟨z0, gz0, hgz0, hkz0⟩ := horig z ga ka hga hka
+        have hwat := hdom.watch z0 gz0 ka old hgz0 hkz0 hbz (by simp [AL.contains, hg])
+        have hns : waitsFor new ka = false := by
+          unfold waitsFor
+          have : ¬ ka.base = some new := by rw [hbz]; intro e; exact hne (Option.some.inj e)
+          simp [this]
+        have hka' : setWatch (waitsFor new) Watch.base ka = ka := by simp [setWatch, hns]
+        rw [hka'] at hy
+        refine mem_switchDs hgb (by
+            have := List.mem_map_of_mem (f := setWatch (waitsFor new) Watch.base) hka
+            rw [hka'] at this; exact this)
+          (by simp [watchesBase, hwat, hbz]) ?_
+        rw [hfB, ← hfS, ← hgS]; exact hy
+  have hS2 := fun {x' gx k c m} => switch_hits T hcov wS.glyphs wS.fuel old "baseGlyphNameChangedNotificationCallback" _
+    (by simp [compCallbacks]) hdomS.bounded
+    (fun x' g k x a1 a2 a3 _ a5 => hdomS.watch x' g k x a1 a2 a3 a5) hsel2 (x' := x') (gx := gx) (k := k) (c := c) (m := m)
+  -- all deliveries
+  have hin1 : ∀ y, y ∈ switchDs T wA (waitsFor new) Watch.base "layerGlyphNameChangedNotificationCallback" →
+      y ∈ switchDs T wA (waitsFor new) Watch.base "layerGlyphNameChangedNotificationCallback" ++
+       switchDs T wB (watchesBase old) Watch.layer "baseGlyphNameChangedNotificationCallback" ++
+       glyphDeliv wS.fuel T wS.glyphs new (T.postsOf "Glyph" "_set_name") := by
+    intro y hy; simp [hy]
+  have hin2 : ∀ y, y ∈ switchDs T wB (watchesBase old) Watch.layer "baseGlyphNameChangedNotificationCallback" →
+      y ∈ switchDs T wA (waitsFor new) Watch.base "layerGlyphNameChangedNotificationCallback" ++
+       switchDs T wB (watchesBase old) Watch.layer "baseGlyphNameChangedNotificationCallback" ++
+       glyphDeliv wS.fuel T wS.glyphs new (T.postsOf "Glyph" "_set_name") := by
+    intro y hy; simp [hy]
+  have hin3 : ∀ y, y ∈ glyphDeliv wS.fuel T wS.glyphs new (T.postsOf "Glyph" "_set_name") →
+      y ∈ switchDs T wA (waitsFor new) Watch.base "layerGlyphNameChangedNotificationCallback" ++
+       switchDs T wB (watchesBase old) Watch.layer "baseGlyphNameChangedNotificationCallback" ++
+       glyphDeliv wS.fuel T wS.glyphs new (T.postsOf "Glyph" "_set_name") := by
+    intro y hy; simp [hy]
+  -- a component of layer A whose base reads `new` or `old` is destroyed, and so is its glyph
+  have hdead : ∀ x1 gx1 k c, AL.get? wA.glyphs x1 = some gx1 → k ∈ gx1.comps → k.base = some c →
+      ((∃ m, ReadsN wA.glyphs m c new) ∨ (∃ m, ReadsN wA.glyphs m c old)) →
+      (∀ nm, isBuiltin T "Component" nm = true → ∃ d y, (nm, d) ∈ T.factoriesOf "Component" ∧
+        (Obj.comp k.id, y) ∈ switchDs T wA (waitsFor new) Watch.base "layerGlyphNameChangedNotificationCallback" ++
+          switchDs T wB (watchesBase old) Watch.layer "baseGlyphNameChangedNotificationCallback" ++
+          glyphDeliv wS.fuel T wS.glyphs new (T.postsOf "Glyph" "_set_name") ∧ d.hit y = true) ∧
+      (∀ nm, (facsOf T w.regs "Glyph").any (fun p => p.1 = nm) = true → ∃ d y, (nm, d) ∈ facsOf T w.regs "Glyph" ∧
+        (Obj.glyph x1, y) ∈ switchDs T wA (waitsFor new) Watch.base "layerGlyphNameChangedNotificationCallback" ++
+          switchDs T wB (watchesBase old) Watch.layer "baseGlyphNameChangedNotificationCallback" ++
+          glyphDeliv wS.fuel T wS.glyphs new (T.postsOf "Glyph" "_set_name") ∧ d.hit y = true) := by
+    intro x1 gx1 k c hgx1 hk hb hr
+    have hgB1 := hmapB x1 gx1 hgx1
+    have hkB : setWatch (waitsFor new) Watch.base k ∈
+        (gx1.comps.map (setWatch (waitsFor new) Watch.base)) := List.mem_map_of_mem hk
+    rcases hr with ⟨m, hrd⟩ | ⟨m, hrd⟩
+    · obtain ⟨hA, hG⟩ := hS1 hgB1 hkB (by rw [hk1.base]; exact hb) (hrB.mpr hrd)
+      constructor
+      · intro nm hbi
+        obtain ⟨d, y, hd, hy, hh⟩ := hA nm hbi
+        rw [hk1.id] at hy
+        exact ⟨d, y, hd, hin1 _ hy, hh⟩
+      · intro nm hnm
+        obtain ⟨d, y, hd, hy, hh⟩ := hG w.regs nm hinv.rdef hnm
+        exact ⟨d, y, hd, hin1 _ hy, hh⟩
+    · have hgS1 := hmapS x1 _ hgB1
+      obtain ⟨hA, hG⟩ := hS2 hgS1 (List.mem_map_of_mem hkB) (by rw [hk2.base, hk1.base]; exact hb)
+        (hrS.mpr (hrB.mpr hrd))
+      constructor
+      · intro nm hbi
+        obtain ⟨d, y, hd, hy, hh⟩ := hA nm hbi
+        rw [hk2.id, hk1.id] at hy
+        exact ⟨d, y, hd, hin2 _ hy, hh⟩
+      · intro nm hnm
+        obtain ⟨d, y, hd, hy, hh⟩ := hG w.regs nm hinv.rdef hnm
+        exact ⟨d, y, hd, hin2 _ hy, hh⟩
+  -- outlines that read neither name are unchanged
+  have houtl : ∀ c, (¬ ∃ m, ReadsN wA.glyphs m c new) → (¬ ∃ m, ReadsN wA.glyphs m c old) →
+      outline w.fuel wA.glyphs c = outline w.fuel w.glyphs c := by
+    intro c h1 h2
+    symm
+    apply outline_agree
+    intro m b hr
+    have e1 : old ≠ b := by intro e; subst e; exact h2 ⟨m, hr⟩
+    have e2 : new ≠ b := by intro e; subst e; exact h1 ⟨m, hr⟩
+    rw [hgA, get?_renamed _ _ _ _ _ e1 e2]
+  have hbody : ∀ gx1 gx : GlyphS, gx1.contours = gx.contours → gx1.comps = gx.comps →
+      (∀ k c, k ∈ gx.comps → k.base = some c → (¬ ∃ m, ReadsN wA.glyphs m c new) ∧ (¬ ∃ m, ReadsN wA.glyphs m c old)) →
+      glyphOutline w.fuel wA.glyphs gx1 = glyphOutline w.fuel w.glyphs gx := by
+    intro gx1 gx hc hk hno
+    unfold glyphOutline bodyWith
+    rw [hc, hk]
+    congr 3
+    apply flatMap_congr'
+    intro k hkm
+    unfold compHead
+    cases hb : k.base with
+    | none => rfl
+    | some c => simp only; rw [houtl c (hno k c hkm hb).1 (hno k c hkm hb).2]
+  -- contour and component records are found where they were
+  have hfindC : ∀ cid, findContour ({ w with glyphs := wA.glyphs } : World V) cid = findContour w cid := by
+    intro cid
+    unfold findContour hostOfContour
+    simp only
+    rw [hgA, host_after_rename w.glyphs hdom.ids.keys old new g { g with attr := attr } hg habs (hasContour cid) rfl
+      (fun q hq h1 h2 => hdom.ids.oneC q.1 old q.2 g cid (AL.get?_of_mem_nodup hdom.ids.keys hq) hg h1 h2)]
+    cases hf : w.glyphs.find? (fun p => hasContour cid p.2) with
+    | none => rfl
+    | some p =>
+      simp only [Option.map_some]
+      by_cases e : p.1 = old
+      · have := AL.get?_of_mem_nodup hdom.ids.keys (List.mem_of_find?_eq_some hf)
+        rw [e, hg] at this
+        simp only [e, if_true]
+        rw [← Option.some.inj this]; rfl
+      · simp [e]
+  have hfindK : ∀ kid, findComp ({ w with glyphs := wA.glyphs } : World V) kid = findComp w kid := by
+    intro kid
+    unfold findComp hostOfComp
+    simp only
+    rw [hgA, host_after_rename w.glyphs hdom.ids.keys old new g { g with attr := attr } hg habs (hasComp kid) rfl
+      (fun q hq h1 h2 => hdom.ids.oneK q.1 old q.2 g kid (AL.get?_of_mem_nodup hdom.ids.keys hq) hg h1 h2)]
+    cases hf : w.glyphs.find? (fun p => hasComp kid p.2) with
+    | none => rfl
+    | some p =>
+      simp only [Option.map_some]
+      by_cases e : p.1 = old
+      · have := AL.get?_of_mem_nodup hdom.ids.keys (List.mem_of_find?_eq_some hf)
+        rw [e, hg] at this
+        simp only [e, if_true]
+        rw [← Option.some.inj this]; rfl
+      · simp [e]
+  have hss := sameStruct_applyDeliv T wS
+      (switchDs T wA (waitsFor new) Watch.base "layerGlyphNameChangedNotificationCallback" ++
+       switchDs T wB (watchesBase old) Watch.layer "baseGlyphNameChangedNotificationCallback" ++
+       glyphDeliv wS.fuel T wS.glyphs new (T.postsOf "Glyph" "_set_name"))
+  -- where an entry of the new world comes from
+  have hsrc : ∀ o nm sk v, (cacheOf wS o).get? nm sk = some v →
+      (o = Obj.glyph new ∧ (cacheOf w (.glyph old)).get? nm sk = some v) ∨
+      (o ≠ Obj.glyph new ∧ o ≠ Obj.glyph old ∧ (cacheOf w o).get? nm sk = some v) := by
+    intro o nm sk v hv
+    rw [hcS] at hv
+    by_cases e1 : Obj.glyph new = o
+    · simp only [e1, if_true] at hv; exact Or.inl ⟨e1.symm, hv⟩
+    · simp only [e1, if_false] at hv
+      by_cases e2 : Obj.glyph old = o
+      · simp [e2, Cache.get?] at hv
+      · simp only [e2, if_false] at hv
+        exact Or.inr ⟨fun e => e1 e.symm, fun e => e2 e.symm, hv⟩
+  -- a component of the original layer sits in layer A under the (possibly new) name of its glyph
+  have hinA : ∀ x gx, AL.get? w.glyphs x = some gx → ∃ x1 gx1, AL.get? wA.glyphs x1 = some gx1 ∧
+      gx1.comps = gx.comps ∧ gx1.contours = gx.contours ∧ (x = old → x1 = new) ∧ (x ≠ old → x1 = x) := by
+    intro x gx hgx
+    by_cases e : x = old
+    · subst e
+      rw [hg] at hgx; cases hgx
+      exact ⟨new, { g with attr := attr }, by rw [hgA, AL.get?_set_self], rfl, rfl, fun _ => rfl, fun h => absurd rfl h⟩
+    · have e2 : new ≠ x := by intro e2; subst e2; rw [habs] at hgx; cases hgx
+      exact ⟨x, gx, by rw [hgA, get?_renamed _ _ _ _ _ (fun h => e h.symm) e2]; exact hgx, rfl, rfl,
+        fun h => absurd h e, fun _ => rfl⟩
+  refine ⟨?_, ?_, ?_, ?_⟩
+  · -- coherence
+    intro o nm sk v hs
+    have h1 := (get?_applyDeliv T wS _ o nm sk v hs).1
+    unfold fresh
+    rw [viewOf_congr T hss, (hview0 o nm).1]
+    rcases hsrc o nm sk v h1 with ⟨eo, h0⟩ | ⟨en, eo, h0⟩
+    · -- the renamed glyph: its entries come from `.glyph old`
+      subst eo
+      have hv0 := hinv.coh _ _ _ _ h0
+      simp only [fresh, viewOf, hg, Option.map_some, Option.getD_some, Obj.cls] at hv0
+      simp only [viewOf, hgA, AL.get?_set_self, Option.map_some, Option.getD_some, Obj.cls]
+      rw [hv0]
+      by_cases hbi : isBuiltin T "Glyph" nm = true
+      · by_cases hex : ∃ k c, k ∈ g.comps ∧ k.base = some c ∧
+            ((∃ m, ReadsN wA.glyphs m c new) ∨ (∃ m, ReadsN wA.glyphs m c old))
+        · exfalso
+          obtain ⟨k, c, hk, hb, hr⟩ := hex
+          obtain ⟨d, y, hd, hy, hh⟩ := (hdead new { g with attr := attr } k c (by rw [hgA, AL.get?_set_self]) hk hb hr).2 nm
+            (hinv.creg _ _ _ _ h0).1
+          exact not_survivor hs (by rw [hrg]; exact hd) hy hh
+        · unfold glyphView
+          simp only [hbi, if_true]
+          have hb' := hbody { g with attr := attr } g rfl rfl (fun k c hk hb =>
+            ⟨fun h => hex ⟨k, c, hk, hb, Or.inl h⟩, fun h => hex ⟨k, c, hk, hb, Or.inr h⟩⟩)
+          rw [← hgA, hb']
+      · exfalso
+        have hposts : hitsReg T "Glyph" (T.postsOf "Glyph" "_set_name") = true := cov_mem hcov (by simp [covList])
+        obtain ⟨d, y, hd, hy, hh⟩ := hits_of_hitsReg hinv.rdef hposts (hinv.creg _ _ _ _ h0).1 (by simpa using hbi)
+        exact not_survivor hs (by rw [hrg]; exact hd) (hin3 _ (glyphDeliv_self' hdomS.bounded hy)) hh
+    · rw [hinv.coh _ _ _ _ h0]
+      unfold fresh
+      congr 1
+      symm
+      have hatt : attached w o = true := by
+        cases ha : attached w o with
+        | true => rfl
+        | false => rw [hinv.loose o ha nm sk] at h0; cases h0
+      cases o with
+      | groups => simp [viewOf]
+      | contour cid => exact viewOf_contour_of_find T (hfindC cid) nm
+      | glyph x =>
+        have e1 : old ≠ x := fun e => eo (by rw [e])
+        have e2 : new ≠ x := fun e => en (by rw [e])
+        simp only [viewOf, hgA, get?_renamed _ _ _ _ _ e1 e2]
+        cases hgx : AL.get? w.glyphs x with
+        | none => rfl
+        | some gx =>
+          simp only [Option.map_some, Option.getD_some]
+          have hgxA : AL.get? wA.glyphs x = some gx := by rw [hgA, get?_renamed _ _ _ _ _ e1 e2]; exact hgx
+          by_cases hex : ∃ k c, k ∈ gx.comps ∧ k.base = some c ∧
+              ((∃ m, ReadsN wA.glyphs m c new) ∨ (∃ m, ReadsN wA.glyphs m c old))
+          · exfalso
+            obtain ⟨k, c, hk, hb, hr⟩ := hex
+            obtain ⟨d, y, hd, hy, hh⟩ := (hdead x gx k c hgxA hk hb hr).2 nm (hinv.creg _ _ _ _ h0).1
+            exact not_survivor hs (by rw [hrg]; exact hd) hy hh
+          · unfold glyphView
+            have hb' := hbody gx gx rfl rfl (fun k c hk hb =>
+              ⟨fun h => hex ⟨k, c, hk, hb, Or.inl h⟩, fun h => hex ⟨k, c, hk, hb, Or.inr h⟩⟩)
+            rw [← hgA, hb']
+      | comp kid =>
+        obtain ⟨k0, hk0⟩ : ∃ k0, findComp w kid = some k0 := by
+          simp only [attached] at hatt
+          unfold findComp
+          cases hh : hostOfComp w.glyphs kid with
+          | none => rw [hh] at hatt; cases hatt
+          | some p =>
+            simp only
+            have := List.find?_some hh
+            exact compIn_of_has (by simpa [hostOfComp] using this)
+        simp only [viewOf, hfindK kid, hk0, Option.map_some, Option.getD_some]
+        unfold compView
+        by_cases hbi : isBuiltin T "Component" nm = true
+        · simp only [hbi, if_true]
+          unfold compToks compHead
+          cases hb : k0.base with
+          | none => rfl
+          | some c =>
+            simp only
+            by_cases hex : (∃ m, ReadsN wA.glyphs m c new) ∨ (∃ m, ReadsN wA.glyphs m c old)
+            · exfalso
+              obtain ⟨x', gx', hgx', hkm⟩ := findComp_attached w hdom.ids.keys kid k0 hatt hk0
+              obtain ⟨x1, gx1, hgx1, hc1, _, _, _⟩ := hinA x' gx' hgx'
+              obtain ⟨d, y, hd, hy, hh⟩ := (hdead x1 gx1 k0 c hgx1 (by rw [hc1]; exact hkm) hb hex).1 nm hbi
+              rw [findComp_id hk0] at hy
+              exact not_survivor hs (mem_facsOf_builtin hd) hy hh
+            · rw [houtl c (fun h => hex (Or.inl h)) (fun h => hex (Or.inr h))]
+        · simp [hbi]
+  · -- loose objects
+    intro o ha nm sk
+    rw [attached_congr hss, (hview0 o nm).2] at ha
+    cases hc : (cacheOf (applyDeliv T wS _) o).get? nm sk with
+    | none => rfl
+    | some v =>
+      exfalso
+      have h1 := (get?_applyDeliv T wS _ o nm sk v hc).1
+      rcases hsrc o nm sk v h1 with ⟨eo, _⟩ | ⟨en, eo, h0⟩
+      · subst eo
+        simp only [attached] at ha
+        rw [hgA] at ha
+        simp [AL.contains] at ha
+      · have hatt : attached w o = true := by
+          cases ha' : attached w o with
+          | true => rfl
+          | false => rw [hinv.loose o ha' nm sk] at h0; cases h0
+        cases o with
+        | groups => simp [attached] at ha
+        | contour cid =>
+          simp only [attached, hostOfContour] at ha hatt
+          rw [hgA, host_after_rename w.glyphs hdom.ids.keys old new g { g with attr := attr } hg habs (hasContour cid) rfl
+            (fun q hq h1 h2 => hdom.ids.oneC q.1 old q.2 g cid (AL.get?_of_mem_nodup hdom.ids.keys hq) hg h1 h2)] at ha
+          cases hf : w.glyphs.find? (fun p => hasContour cid p.2) with
+          | none => rw [hf] at hatt; cases hatt
+          | some p => rw [hf] at ha; cases ha
+        | comp kid =>
+          simp only [attached, hostOfComp] at ha hatt
+          rw [hgA, host_after_rename w.glyphs hdom.ids.keys old new g { g with attr := attr } hg habs (hasComp kid) rfl
+            (fun q hq h1 h2 => hdom.ids.oneK q.1 old q.2 g kid (AL.get?_of_mem_nodup hdom.ids.keys hq) hg h1 h2)] at ha
+          cases hf : w.glyphs.find? (fun p => hasComp kid p.2) with
+          | none => rw [hf] at hatt; cases hatt
+          | some p => rw [hf] at ha; cases ha
+        | glyph x =>
+          have e1 : old ≠ x := fun e => eo (by rw [e])
+          have e2 : new ≠ x := fun e => en (by rw [e])
+          simp only [attached, AL.contains] at ha hatt
+          rw [hgA, get?_renamed _ _ _ _ _ e1 e2] at ha
+          rw [ha] at hatt; cases hatt
+  · -- only registered names
+    intro o nm sk v hs
+    have h1 := (get?_applyDeliv T wS _ o nm sk v hs).1
+    rw [hss.regs, hrg]
+    rcases hsrc o nm sk v h1 with ⟨eo, h0⟩ | ⟨_, _, h0⟩
+    · subst eo; exact hinv.creg (.glyph old) _ _ _ h0
+    · exact hinv.creg _ _ _ _ h0
+  · intro r hr'
+    rw [hss.regs, hrg] at hr'
+    exact hinv.rdef r hr'
+
 /-- `Layer.newGlyph` on an absent name -/
 theorem inv_newGlyph (P : Params V) (T : Tables) (hcov : Coverage T = true) (w : World V) (name : String)
     (hinv : Inv P T w) (hdom : Dom w) (hdom' : Dom (doNewGlyph T w name).1) : Inv P T (doNewGlyph T w name).1 := by
